@@ -204,6 +204,16 @@ M = [
     ('reader-text-mode-c19', 'C19', 'pysmi/reader/localfile.py', "open(f, mode='rb')", "open(f, mode='r')"),
     ('reader-mtime-float-c10', 'C10', 'pysmi/reader/localfile.py', "mtime = os.stat(f)[8]", "mtime = os.stat(f).st_mtime"),
     ('writer-temp-outside-destination-c20', 'C20', WL, "tempfile.mkstemp(dir=self._path)", "tempfile.mkstemp()"),
+    ('template-middle-pair-without-comma', 'C04', T, "          (\"{{ name}}\", {{ iden }}),\n        {% endif %}\n    {% endfor %}\n    )\n    {% elif 'range' in spec %}", "          (\"{{ name}}\", {{ iden }})\n        {% endif %}\n    {% endfor %}\n    )\n    {% elif 'range' in spec %}"),
+    ('template-last-pair-unbalanced', 'C04', T, "          (\"{{ name}}\", {{ iden }}))\n        {% else %}\n          (\"{{ name}}\", {{ iden }}),\n        {% endif %}\n    {% endfor %}\n    )\n    {% elif 'range' in spec %}", "          (\"{{ name}}\", {{ iden }})\n        {% else %}\n          (\"{{ name}}\", {{ iden }}),\n        {% endif %}\n    {% endfor %}\n    )\n    {% elif 'range' in spec %}"),
+    # ---- round 5
+    ('class-table-extended-in-place', 'C12', I, "        self.symbolTable = symbolTable\n        self._rows.clear()", "        table = IntermediateCodeGen.SMI_TYPES\n        table.setdefault('Unsigned', 'Unsigned32')\n        self.symbolTable = symbolTable\n        self._rows.clear()"),
+    ('error-message-arity', 'C07', C, "raise error.PySmiError('no MIB module found in %s' % fileInfo.path)", "raise error.PySmiError('no MIB module found in %s (%s)' % fileInfo.path)"),
+    ('adapter-drops-status', 'C04', Y, "        translateOids(context)\n", "        translateOids(context)\n\n        for definition in context.values():\n            definition.pop('status', None)\n"),
+    ('rendered-text-edited', 'C04', Y, "            text = tmpl.render(mib=context)\n", "            text = tmpl.render(mib=context)\n            text = text.rstrip() + '\\n'\n"),
+    ('package-import-empty-fromlist', 'C10', 'pysmi/searcher/pypackage.py', "p = __import__(self._package, globals(), locals(), ['__init__'])", "p = __import__(self._package, globals(), locals(), [])"),
+    ('mibcopy-repositories-first', 'C20', 'scripts/mibcopy.py', "        FileReader(mibDir, recursive=False, ignoreErrors=ignoreErrorsFlag),\n        *getReadersFromUrls(*mibSources)\n", "        *(getReadersFromUrls(*mibSources) + [FileReader(mibDir, recursive=False, ignoreErrors=ignoreErrorsFlag)])\n"),
+    ('missing-name-reported-untouched', 'C09', C, "                if mibname not in processed:\n                    processed[mibname] = statusMissing\n", "                if mibname not in processed:\n                    processed[mibname] = statusUntouched\n"),
 ]
 
 
